@@ -134,15 +134,37 @@ NEUTRAL_FLAVOUR[6] = (
     "(a single shared check.py for all five is enough).")
 
 
+# round 7: the indirect changes.  The edit is NOT in the function a reader would open first: it is in something that function relies on.
+SEED_FLAVOUR[7] = ("ROUND-SPECIFIC INSTRUCTIONS: the two variants must be INDIRECT. First identify the functions that most directly implement the property "
+                   "(the ones a reviewer would open first). Your edits must NOT be inside those functions' bodies. Variant a: change something they RELY ON "
+                   "that lives elsewhere - a module-level or class-level constant, an enum member or its value, a default argument, a helper or utility "
+                   "function, a base-class method, a property getter / setter, an `__init__`, a table or mapping, a dataclass field, an exception class "
+                   "hierarchy, `__eq__` / `__hash__` / `__bool__` / `__len__` of an object they handle. Variant b: change a CALLER or a SIBLING so that the "
+                   "directly responsible functions are now used outside the conditions under which they are correct (called in another order, with another "
+                   "argument, on a shared instead of a fresh object, twice, or not at all on one path; an attribute they read is now written somewhere new). "
+                   "In notes.md name the directly responsible functions you avoided.")
+NEUTRAL_FLAVOUR[7] = (
+    "  r1  CROSS-MODULE MOVES: move constants into msmart/const.py (or out of it), move a helper into msmart/utils.py (or a new private module) and import "
+    "it back, turn a module-level function into a staticmethod or the reverse, re-export a name - the responsible code now reaches the same values "
+    "and functions through other modules.\n"
+    "  r2  LIBRARY AND TESTS TOGETHER: an internal API change that stays behaviour-preserving for every public entry point but needs the tests touched too "
+    "(a private method renamed or given a keyword-only parameter, a private attribute renamed, a helper's return type changed from tuple to a small "
+    "NamedTuple / dataclass); update the tests in the same patch so that all 65 keep passing and still test the same thing.\n"
+    "  r3  TYPING / PLATFORM MODERNISATION: `from __future__ import annotations`, `X | None` for Optional, `collections.abc` imports, `typing.cast` removed "
+    "or added, `@override` / `Final` / `ClassVar` / `Self` annotations (only what Python 3.12 has in the standard library), `__slots__` where nothing "
+    "depends on `__dict__`, `enum` auto-features that keep the values, `functools.cached_property` only where the value cannot change.\n"
+    "For r2 the requirement below not to rename what the tests use is lifted: change the tests in the same patch, keeping the 65 test ids as they are.")
+
+
 def sh(cmd):
     return subprocess.run(cmd, shell=True, capture_output=True, text=True)
 
 
 VERIF = os.path.dirname(os.path.dirname(os.path.abspath(__file__)))
 BASELINE = json.load(open("/root/.vp/BASELINE.json"))["stable_pass"]
-LETTERS = {3: {"a": "e", "b": "f"}, 4: {"a": "g", "b": "h"}, 5: {"a": "i", "b": "j"}, 6: {"a": "k", "b": "l", "c": "m", "d": "n"}}          # seeds: round -> variant -> suffix under /verif/seeded
+LETTERS = {3: {"a": "e", "b": "f"}, 4: {"a": "g", "b": "h"}, 5: {"a": "i", "b": "j"}, 6: {"a": "k", "b": "l", "c": "m", "d": "n"}, 7: {"a": "o", "b": "p"}}          # seeds: round -> variant -> suffix under /verif/seeded
 NUMBERS = {3: {"r1": "r8", "r2": "r9", "r3": "r10"}, 4: {"r1": "r11", "r2": "r12", "r3": "r13"}, 5: {"r1": "r14", "r2": "r15", "r3": "r16"},
-           6: {"r1": "r17", "r2": "r18", "r3": "r19", "r4": "r20", "r5": "r21"}}
+           6: {"r1": "r17", "r2": "r18", "r3": "r19", "r4": "r20", "r5": "r21"}, 7: {"r1": "r22", "r2": "r23", "r3": "r24"}}
 
 
 def variants(root):
